@@ -1,7 +1,7 @@
 def _units(prop, tier, modes):
     t = 1 if tier == 'thorough' else 0
     units = []
-    parts = range(13)
+    parts = range(14)
     # quick: the two native cells (GCC -> intrinsic, Clang -> portable); thorough: all four cells
     cells = [('g++', 1), ('clang++', 0)] + ([('g++', 0), ('clang++', 1)] if t else [])
     for comp, path in cells:
@@ -23,7 +23,7 @@ def plan(tier):
              'wider types over B0(step %d) x closure {limit -+ b, limit / b, limit >> s, each +-1}; shift counts 0..66, 126..130 and large lattice values; '
              'float sources: neighbours (nextafter x3, +-0.25..2) of every destination limit; non-trivial = exact result out of range or within 2 of a limit, '
              'or a negative operand with an unsigned result type' % (1 if t else 3),
-        bound=dict(types=['i8', 'u8', 'i16', 'u16', 'i32', 'u32', 'i64', 'u64', 'i128/u128 (6 pairs)'], operators=['add', 'sub', 'mul', 'div', 'shl', 'minus', 'convert', 'compound assignment', '++/--'],
+        bound=dict(types=['i8', 'u8', 'i16', 'u16', 'i32', 'u32', 'i64', 'u64', 'i128/u128 (6 pairs)', 'long long / unsigned long long / wchar_t / char16_t / char32_t (11 pairs)'], operators=['add', 'sub', 'mul', 'div', 'shl', 'minus', 'convert', 'compound assignment', '++/--'],
                    tags=['saturated', 'throwing', 'trapping'], lattice_step=1 if t else 3, paths=['intrinsic', 'portable'], compilers=['g++', 'clang++']),
         assumptions=['float->integer conversion: sources s with s outside [lowest,max] but trunc(s) inside are not judged (the "exact result" is ambiguous there); non-finite sources excluded',
                      'compound assignment is judged with the two-step semantics a = L(a op b) (operator result range-checked in the promoted type, then in L)'],
